@@ -25,6 +25,35 @@ func hasGo(fn *ssa.Function) bool {
 	return found
 }
 
+// counterAddrFields resolves an address handed to sync/atomic to the receiver fields it can denote: &recv.f directly, or the
+// result of a same-package helper called on the same receiver whose every return is &recv.f.
+func counterAddrFields(v ssa.Value, fn *ssa.Function) ([]string, bool) {
+	if fa, ok := v.(*ssa.FieldAddr); ok && len(fn.Params) > 0 && fa.X == ssa.Value(fn.Params[0]) {
+		return []string{an.FieldOf(fa).Name()}, true
+	}
+	call, ok := v.(*ssa.Call)
+	if !ok {
+		return nil, false
+	}
+	cal := an.StaticCallee(&call.Call)
+	if cal == nil || cal.Pkg != fn.Pkg || len(cal.Params) == 0 || len(call.Call.Args) == 0 || len(fn.Params) == 0 || call.Call.Args[0] != ssa.Value(fn.Params[0]) {
+		return nil, false
+	}
+	ps, _ := an.EnumPaths(cal, 16)
+	var out []string
+	for _, p := range ps {
+		if p.Return == nil || len(p.ResVals) != 1 {
+			continue
+		}
+		fa, ok := an.ResolveOnPath(p.ResVals[0], p).(*ssa.FieldAddr)
+		if !ok || fa.X != ssa.Value(cal.Params[0]) {
+			return nil, false
+		}
+		out = append(out, an.FieldOf(fa).Name())
+	}
+	return out, len(out) > 0
+}
+
 func runC05(c *core.Ctx, o Options) {
 	c.Explanation = "The premises of a short ordering argument are each decided on the code (for every schedule at once): K1 — in Session.send the call that takes the next outgoing number, the four header stamps and Router.Send all execute with Session.mu held (must-held lockset); " +
 		"K2 — that is the only place in package session that takes an outgoing number or calls Router.Send; retransmission (SendBatch) is the only bypass; K3 — no go statement anywhere on the call chain Session.send → DefaultHandler.Send → send → sendRaw → channel `out`; " +
@@ -194,11 +223,31 @@ func runC05(c *core.Ctx, o Options) {
 			if p.Return == nil {
 				continue
 			}
-			r := p.Results[0]
-			if r == "int(atomic.AddInt64(&s.counterOutgoing, 1))" {
-				nOut++
-			} else if r != "int(atomic.AddInt64(&s.counterIncoming, 1))" {
+			// int(atomic.AddInt64(addr, 1)) with addr the address of one of the receiver's counters, possibly chosen by a helper
+			var add *ssa.Call
+			if cv, isCv := an.Unwrap(p.ResVals[0]).(*ssa.Convert); isCv {
+				add, _ = cv.X.(*ssa.Call)
+			}
+			if add == nil || !an.CalleeIs(&add.Call, "sync/atomic", "AddInt64") {
 				ok = false
+				continue
+			}
+			if k, isK := an.ConstInt(add.Call.Args[1]); !isK || k != 1 {
+				ok = false
+				continue
+			}
+			fields, resolved := counterAddrFields(an.ResolveOnPath(add.Call.Args[0], p), gn)
+			if !resolved {
+				ok = false
+			}
+			for _, f := range fields {
+				switch f {
+				case "counterOutgoing":
+					nOut++
+				case "counterIncoming":
+				default:
+					ok = false
+				}
 			}
 		}
 		c.Check(ok && nOut == 1, "K4", "Storage.GetNextSeqNum", "atomically increments and returns the incremented counter", gn.Pos(), "int(atomic.AddInt64(&counter, 1))", "GetNextSeqNum is not an atomic increment-and-return of the counter")
